@@ -1,6 +1,12 @@
 namespace Misc
 
-/-! ## C03 / C11: trust-on-first-use over arbitrary histories, and "nothing sent before verification" -/
+/-! ## M-Tofu / M-Session: trust-on-first-use over arbitrary histories (C03), and the ordered effect
+    trace of one connection ("nothing is sent before verification", C11).
+
+Mirrors `GeminiClient._get_single` / `upload` (client/session.py) and `TOFUDatabase.verify / trust /
+revoke / revoke_by_hostname / clear / import_toml` (security/tofu.py).  Parameters (not modelled):
+SHA-256 and X.509 parsing (a presented certificate is either `cert fp`, i.e. it parses and hashes to
+`fp`, or `unreadable`), the TLS handshake itself, SQLite (the store is an association list). -/
 abbrev Key := Nat × Nat          -- (host id, port)
 abbrev Fp := Nat
 abbrev Pins := List (Key × Fp)
@@ -11,7 +17,7 @@ def Pins.del (s : Pins) (k : Key) : Pins := s.filter (·.1 != k)
 
 inductive Presented where
   | cert (fp : Fp)
-  | unreadable                 -- handshake completed, but the certificate cannot be parsed
+  | unreadable                 -- handshake completed, but the certificate cannot be read / parsed
 deriving Repr, DecidableEq
 
 inductive Outcome where
@@ -20,60 +26,71 @@ inductive Outcome where
   | refused
 deriving Repr, DecidableEq
 
-/-- what reaches the peer and in which order (repaired `_get_single` / `upload`) -/
+/-- what happens on one connection and in which order -/
 inductive Act where
-  | connect (k : Key) | verify (k : Key) | trust (k : Key) (f : Fp) | send (k : Key) (payload : Nat) | await
+  | connect (k : Key)                 -- TCP + TLS handshake completed (`create_connection` returned)
+  | verify (k : Key) (ok : Bool)      -- `tofu_db.verify`: `ok` = matches the pin or first use
+  | trust (k : Key) (f : Fp)          -- `tofu_db.trust` on first use
+  | send (k : Key) (chunk : Nat)      -- one `transport.write` of `send_request`
+  | await                             -- waiting for the response future
+  | close                             -- `transport.close()` in the `finally`
 deriving Repr, DecidableEq
 
-/-- one connection attempt with TOFU on: (pins', outcome, actions) -/
-def connect (s : Pins) (k : Key) (p : Presented) (payload response : Nat) : Pins × Outcome × List Act :=
+def sends (k : Key) (payload : List Nat) : List Act := payload.map (Act.send k)
+
+/-- one connection attempt with TOFU on: (pins', outcome, actions).
+    `payload` = the writes of `send_request` (one for Gemini, request line + content for Titan). -/
+def connect (s : Pins) (k : Key) (p : Presented) (payload : List Nat) (response : Nat) : Pins × Outcome × List Act :=
   match p with
-  | .unreadable => (s, .refused, [.connect k])
+  | .unreadable => (s, .refused, [.connect k, .close])
   | .cert fp =>
     match s.get k with
-    | none => (s.set k fp, .accepted response, [.connect k, .verify k, .trust k fp, .send k payload, .await])
+    | none => (s.set k fp, .accepted response, [.connect k, .verify k true, .trust k fp] ++ (sends k payload ++ [.await, .close]))
     | some old =>
-      if old = fp then (s, .accepted response, [.connect k, .verify k, .send k payload, .await])
-      else (s, .changed old fp, [.connect k, .verify k])
+      if old = fp then (s, .accepted response, [.connect k, .verify k true] ++ (sends k payload ++ [.await, .close]))
+      else (s, .changed old fp, [.connect k, .verify k false, .close])
 
-inductive Op where
-  | fetch (k : Key) (p : Presented) (payload response : Nat)
-  | trust (k : Key) (f : Fp) | revoke (k : Key) | clear
-deriving Repr
-
-def stepOp (s : Pins) : Op → Pins × Option Outcome × List Act
-  | .fetch k p payload r => let x := connect s k p payload r; (x.1, some x.2.1, x.2.2)
-  | .trust k f => (s.set k f, none, [])
-  | .revoke k => (s.del k, none, [])
-  | .clear => ([], none, [])
+/-- the same connection with TOFU disabled (`trust_on_first_use=False`, the proxy's mode):
+    the request is written in `connection_made`, the store is neither read nor written -/
+def connectOff (s : Pins) (k : Key) (_p : Presented) (payload : List Nat) (response : Nat) : Pins × Outcome × List Act :=
+  (s, .accepted response, [.connect k] ++ (sends k payload ++ [.await, .close]))
 
 theorem get_set_self (s : Pins) (k : Key) (f : Fp) : (s.set k f).get k = some f := by
   simp [Pins.set, Pins.get]
 
-theorem get_filter_ne (s : Pins) (k k' : Key) (h : k ≠ k') : Pins.get (s.filter (·.1 != k)) k' = s.get k' := by
+/-- filtering with a predicate that keeps every row of `k` does not change the pin of `k` -/
+theorem get_filter_keep (s : Pins) (k : Key) (f : Key × Fp → Bool) (h : ∀ e : Key × Fp, e.1 = k → f e = true) :
+    Pins.get (s.filter f) k = s.get k := by
   induction s with
   | nil => rfl
   | cons p ps ih =>
     simp only [Pins.get] at ih ⊢
-    by_cases h1 : p.1 = k
-    · have : (p.1 != k) = false := by simp [h1]
-      have h2 : (p.1 == k') = false := by rw [h1]; simpa [beq_eq_false_iff_ne] using h
-      simp only [List.filter_cons, this, Bool.false_eq_true, ↓reduceIte, List.find?_cons, h2]
-      exact ih
-    · have : (p.1 != k) = true := by simp [h1]
-      simp only [List.filter_cons, this, ↓reduceIte, List.find?_cons]
-      cases hq : (p.1 == k')
-      · simpa using ih
-      · rfl
+    by_cases hk : p.1 = k
+    · have hf : f p = true := h p hk
+      have hb : (p.1 == k) = true := by simp [hk]
+      simp only [List.filter_cons, hf, ↓reduceIte, List.find?_cons, hb]
+    · have hb : (p.1 == k) = false := by simpa [beq_eq_false_iff_ne] using hk
+      cases hf : f p
+      · simp only [List.filter_cons, hf, Bool.false_eq_true, ↓reduceIte, List.find?_cons, hb]; exact ih
+      · simp only [List.filter_cons, hf, ↓reduceIte, List.find?_cons, hb]; exact ih
+
+theorem get_filter_ne (s : Pins) (k k' : Key) (h : k ≠ k') : Pins.get (s.filter (·.1 != k)) k' = s.get k' := by
+  apply get_filter_keep
+  intro e he
+  have : e.1 ≠ k := by rw [he]; exact fun hh => h hh.symm
+  simpa using this
 
 theorem get_set_other (s : Pins) (k k' : Key) (f : Fp) (h : k ≠ k') : (s.set k f).get k' = s.get k' := by
   have hne : (k == k') = false := by simpa [beq_eq_false_iff_ne] using h
   simp only [Pins.set, Pins.get, List.find?_cons, hne]
   exact get_filter_ne s k k' h
 
+theorem get_del_other (s : Pins) (k k' : Key) (h : k ≠ k') : (s.del k).get k' = s.get k' :=
+  get_filter_ne s k k' h
+
 /-- C03: a connection is accepted exactly when the presented certificate is the pin, or there is no
-    pin yet (and then it becomes the pin) -/
-theorem connect_accept_iff (s : Pins) (k : Key) (p : Presented) (pl r : Nat) :
+    pin yet -/
+theorem connect_accept_iff (s : Pins) (k : Key) (p : Presented) (pl : List Nat) (r : Nat) :
     (∃ x, (connect s k p pl r).2.1 = .accepted x) ↔
       ∃ fp, p = .cert fp ∧ (s.get k = some fp ∨ s.get k = none) := by
   unfold connect
@@ -93,8 +110,20 @@ theorem connect_accept_iff (s : Pins) (k : Key) (p : Presented) (pl r : Nat) :
           · injection hf with hf; subst hf; simp at h; exact absurd h he
           · simp at h
 
+/-- C03: first use pins exactly what was presented -/
+theorem connect_first_use (s : Pins) (k : Key) (fp : Fp) (pl : List Nat) (r : Nat) (h : s.get k = none) :
+    (connect s k (.cert fp) pl r).2.1 = .accepted r ∧ (connect s k (.cert fp) pl r).1.get k = some fp := by
+  constructor
+  · simp [connect, h]
+  · simp only [connect, h]; exact get_set_self s k fp
+
+/-- C03: a matching certificate is accepted and the store is left as it is -/
+theorem connect_same (s : Pins) (k : Key) (fp : Fp) (pl : List Nat) (r : Nat) (h : s.get k = some fp) :
+    (connect s k (.cert fp) pl r).2.1 = .accepted r ∧ (connect s k (.cert fp) pl r).1 = s := by
+  simp [connect, h]
+
 /-- C03: a changed or unreadable certificate fails, names both fingerprints, and leaves every pin alone -/
-theorem connect_reject (s : Pins) (k : Key) (p : Presented) (pl r : Nat)
+theorem connect_reject (s : Pins) (k : Key) (p : Presented) (pl : List Nat) (r : Nat)
     (h : ∀ x, (connect s k p pl r).2.1 ≠ .accepted x) :
     (connect s k p pl r).1 = s ∧
     ((connect s k p pl r).2.1 = .refused ∨ ∃ old new, (connect s k p pl r).2.1 = .changed old new ∧
@@ -112,8 +141,17 @@ theorem connect_reject (s : Pins) (k : Key) (p : Presented) (pl r : Nat)
       · simp only [he, ↓reduceIte]
         exact ⟨trivial, Or.inr ⟨old, fp, rfl, rfl, rfl, he⟩⟩
 
+/-- C03: pinned with `a`, presented `b ≠ a` ⇒ `changed a b`, store untouched, no response -/
+theorem connect_changed (s : Pins) (k : Key) (a b : Fp) (pl : List Nat) (r : Nat) (hp : s.get k = some a) (hne : a ≠ b) :
+    (connect s k (.cert b) pl r).2.1 = .changed a b ∧ (connect s k (.cert b) pl r).1 = s := by
+  simp [connect, hp, hne]
+
+/-- C03: an unreadable certificate is refused, never treated as unpinned or trusted -/
+theorem connect_unreadable (s : Pins) (k : Key) (pl : List Nat) (r : Nat) :
+    (connect s k .unreadable pl r).2.1 = .refused ∧ (connect s k .unreadable pl r).1 = s := ⟨rfl, rfl⟩
+
 /-- C03: pins of other host:port pairs are never influenced -/
-theorem connect_frame (s : Pins) (k k' : Key) (p : Presented) (pl r : Nat) (h : k ≠ k') :
+theorem connect_frame (s : Pins) (k k' : Key) (p : Presented) (pl : List Nat) (r : Nat) (h : k ≠ k') :
     (connect s k p pl r).1.get k' = s.get k' := by
   unfold connect
   cases p with
@@ -123,60 +161,169 @@ theorem connect_frame (s : Pins) (k k' : Key) (p : Presented) (pl r : Nat) (h : 
     | none => exact get_set_other s k k' fp h
     | some old => simp only; split <;> rfl
 
-/-- scan an action list: is every `send` preceded by a `verify` of the same connection? -/
-def sendsGuarded : Bool → List Act → Bool
+/-! ### C11: the effect trace -/
+
+/-- scan an action list: is every `send` preceded, on the same connection, by a successful `verify`
+    of the same key?  The flag is reset by every new `connect`. -/
+def guarded : Option Key → List Act → Bool
   | _, [] => true
-  | _, .verify _ :: rest => sendsGuarded true rest
-  | v, .send _ _ :: rest => v && sendsGuarded v rest
-  | v, _ :: rest => sendsGuarded v rest
+  | _, .connect _ :: rest => guarded none rest
+  | _, .verify k ok :: rest => guarded (if ok then some k else none) rest
+  | v, .send k _ :: rest => (v == some k) && guarded v rest
+  | v, .trust _ _ :: rest => guarded v rest
+  | v, .await :: rest => guarded v rest
+  | v, .close :: rest => guarded v rest
 
 def noSend : List Act → Bool
   | [] => true
   | .send _ _ :: _ => false
   | _ :: rest => noSend rest
 
+/-- everything the peer receives on the connections of a trace -/
+def peerReceived : List Act → List Nat
+  | [] => []
+  | .send _ c :: rest => c :: peerReceived rest
+  | _ :: rest => peerReceived rest
+
+theorem guarded_sends (k : Key) (pl : List Nat) (rest : List Act) :
+    guarded (some k) (sends k pl ++ rest) = guarded (some k) rest := by
+  induction pl with
+  | nil => rfl
+  | cons c cs ih => simpa [sends, guarded] using ih
+
+theorem peerReceived_sends (k : Key) (pl : List Nat) (rest : List Act) :
+    peerReceived (sends k pl ++ rest) = pl ++ peerReceived rest := by
+  induction pl with
+  | nil => rfl
+  | cons c cs ih => simpa [sends, peerReceived] using ih
+
+theorem noSend_peer (t : List Act) (h : noSend t = true) : peerReceived t = [] := by
+  induction t with
+  | nil => rfl
+  | cons a as ih => cases a <;> simp_all [noSend, peerReceived]
+
 /-- C11: nothing is sent on a connection before its certificate passed verification, and nothing at
-    all when verification fails -/
-theorem send_after_verify (s : Pins) (k : Key) (p : Presented) (pl r : Nat) :
-    sendsGuarded false (connect s k p pl r).2.2 = true ∧
+    all when verification fails — for every store, key, presented certificate and payload -/
+theorem send_after_verify (s : Pins) (k : Key) (p : Presented) (pl : List Nat) (r : Nat) (v : Option Key) :
+    guarded v (connect s k p pl r).2.2 = true ∧
     ((∀ x, (connect s k p pl r).2.1 ≠ .accepted x) → noSend (connect s k p pl r).2.2 = true) := by
   unfold connect
   cases p with
   | unreadable => exact ⟨rfl, fun _ => rfl⟩
   | cert fp =>
     cases hg : s.get k with
-    | none => exact ⟨rfl, fun h => absurd rfl (h r)⟩
+    | none =>
+      refine ⟨?_, fun h => absurd rfl (h r)⟩
+      simp only [List.cons_append, List.nil_append, guarded, ↓reduceIte]
+      rw [guarded_sends]; rfl
     | some old =>
       simp only
       by_cases he : old = fp
-      · simp only [he, ↓reduceIte]; exact ⟨rfl, fun h => absurd rfl (h r)⟩
+      · simp only [he, ↓reduceIte]
+        refine ⟨?_, fun h => absurd rfl (h r)⟩
+        simp only [List.cons_append, List.nil_append, guarded, ↓reduceIte]
+        rw [guarded_sends]; rfl
       · simp only [he, ↓reduceIte]; exact ⟨rfl, fun _ => rfl⟩
 
-/-- C03 over histories: along any history, an accepted connection to a pinned key presented the pin -/
-def runOps (s : Pins) : List Op → List (Pins × Option Outcome)
-  | [] => []
-  | o :: os => (s, (stepOp s o).2.1) :: runOps (stepOp s o).1 os
+/-- C11: when the connection is accepted the peer receives exactly the payload, in order -/
+theorem accepted_payload (s : Pins) (k : Key) (p : Presented) (pl : List Nat) (r x : Nat)
+    (h : (connect s k p pl r).2.1 = .accepted x) : peerReceived (connect s k p pl r).2.2 = pl := by
+  unfold connect at h ⊢
+  cases p with
+  | unreadable => simp at h
+  | cert fp =>
+    cases hg : s.get k with
+    | none =>
+      simp only [List.cons_append, List.nil_append, peerReceived]
+      rw [peerReceived_sends]; simp [peerReceived]
+    | some old =>
+      simp only [hg] at h ⊢
+      by_cases he : old = fp
+      · simp only [he, ↓reduceIte, List.cons_append, List.nil_append, peerReceived]
+        rw [peerReceived_sends]; simp [peerReceived]
+      · simp [he] at h
 
-theorem history_pinned (s : Pins) (ops : List Op) (i : Nat) (k : Key) (p : Presented) (pl r : Nat)
-    (before : Pins) (x : Nat)
-    (hop : ops[i]? = some (Op.fetch k p pl r))
-    (hrun : (runOps s ops)[i]? = some (before, some (Outcome.accepted x)))
-    (pin : Fp) (hpin : before.get k = some pin) : p = .cert pin := by
-  induction ops generalizing s i with
-  | nil => simp at hop
-  | cons o os ih =>
+/-- position form of `guarded`: a `send` at position `i` of a guarded trace is preceded by a successful
+    `verify` of the same key at some `j < i`, with no new `connect` in between -/
+theorem guarded_spec (t : List Act) (v : Option Key) (hg : guarded v t = true) (i : Nat) (k : Key) (c : Nat)
+    (hi : t[i]? = some (.send k c)) :
+    (v = some k ∧ ∀ m, m < i → ∀ k', t[m]? ≠ some (.connect k')) ∨
+    ∃ j, j < i ∧ t[j]? = some (.verify k true) ∧ ∀ m, j < m → m < i → ∀ k', t[m]? ≠ some (.connect k') := by
+  induction t generalizing v i with
+  | nil => simp at hi
+  | cons a as ih =>
     cases i with
     | zero =>
-      simp only [List.getElem?_cons_zero, Option.some.injEq] at hop
-      subst hop
-      simp only [runOps, stepOp, List.getElem?_cons_zero, Option.some.injEq, Prod.mk.injEq] at hrun
-      obtain ⟨rfl, hacc⟩ := hrun
-      have := (connect_accept_iff s k p pl r).mp ⟨x, by simpa using hacc⟩
-      obtain ⟨fp, rfl, h | h⟩ := this
-      · rw [hpin] at h; injection h with h; rw [h]
-      · rw [hpin] at h; simp at h
-    | succ j =>
-      simp only [List.getElem?_cons_succ] at hop
-      simp only [runOps, List.getElem?_cons_succ] at hrun
-      exact ih _ j hop hrun
+      simp only [List.getElem?_cons_zero, Option.some.injEq] at hi
+      subst hi
+      simp only [guarded, Bool.and_eq_true, beq_iff_eq] at hg
+      exact Or.inl ⟨hg.1, fun m hm => by omega⟩
+    | succ n =>
+      simp only [List.getElem?_cons_succ] at hi
+      have shift : ∀ (w : Option Key), guarded w as = true →
+          ((∃ j, j < n ∧ as[j]? = some (.verify k true) ∧ ∀ m, j < m → m < n → ∀ k', as[m]? ≠ some (.connect k')) →
+            ∃ j, j < n + 1 ∧ (a :: as)[j]? = some (.verify k true) ∧
+              ∀ m, j < m → m < n + 1 → ∀ k', (a :: as)[m]? ≠ some (.connect k')) := by
+        intro w _ ⟨j, hj, hv, hb⟩
+        refine ⟨j + 1, by omega, by simpa using hv, ?_⟩
+        intro m hm1 hm2 k'
+        cases m with
+        | zero => omega
+        | succ m' => simpa using hb m' (by omega) (by omega) k'
+      cases a with
+      | connect k0 =>
+        simp only [guarded] at hg
+        rcases ih none hg n hi with ⟨h1, _⟩ | h2
+        · simp at h1
+        · exact Or.inr (shift none hg h2)
+      | verify k0 ok =>
+        simp only [guarded] at hg
+        rcases ih _ hg n hi with ⟨h1, h2⟩ | h2
+        · cases ok with
+          | false => simp at h1
+          | true =>
+            simp only [↓reduceIte, Option.some.injEq] at h1
+            subst h1
+            refine Or.inr ⟨0, by omega, by simp, ?_⟩
+            intro m hm1 hm2 k'
+            cases m with
+            | zero => omega
+            | succ m' => simpa using h2 m' (by omega) k'
+        · exact Or.inr (shift _ hg h2)
+      | trust k0 f0 =>
+        simp only [guarded] at hg
+        rcases ih v hg n hi with ⟨h1, h2⟩ | h2
+        · refine Or.inl ⟨h1, ?_⟩
+          intro m hm k'
+          cases m with
+          | zero => simp
+          | succ m' => simpa using h2 m' (by omega) k'
+        · exact Or.inr (shift v hg h2)
+      | send k0 c0 =>
+        simp only [guarded, Bool.and_eq_true, beq_iff_eq] at hg
+        rcases ih v hg.2 n hi with ⟨h1, h2⟩ | h2
+        · refine Or.inl ⟨h1, ?_⟩
+          intro m hm k'
+          cases m with
+          | zero => simp
+          | succ m' => simpa using h2 m' (by omega) k'
+        · exact Or.inr (shift v hg.2 h2)
+      | await =>
+        simp only [guarded] at hg
+        rcases ih v hg n hi with ⟨h1, h2⟩ | h2
+        · refine Or.inl ⟨h1, ?_⟩
+          intro m hm k'
+          cases m with
+          | zero => simp
+          | succ m' => simpa using h2 m' (by omega) k'
+        · exact Or.inr (shift v hg h2)
+      | close =>
+        simp only [guarded] at hg
+        rcases ih v hg n hi with ⟨h1, h2⟩ | h2
+        · refine Or.inl ⟨h1, ?_⟩
+          intro m hm k'
+          cases m with
+          | zero => simp
+          | succ m' => simpa using h2 m' (by omega) k'
+        · exact Or.inr (shift v hg h2)
 end Misc
